@@ -274,7 +274,15 @@ struct Reporter {
     if (samples.size() < sample_cap) samples.push_back(json_value);
   }
   void count(const std::string& k, uint64_t n = 1) { std::lock_guard<std::mutex> g(mu); counters[k] += n; }
-  void outcome(uint64_t h) { std::lock_guard<std::mutex> g(mu); distinct.insert(h); }
+  // The set is capped (memory: a thorough shard can see >10^8 distinct outcomes); above the cap the count
+  // reported is a lower bound and the shard says so ("distinct_capped").
+  size_t distinct_cap = size_t(1) << 21;
+  bool distinct_capped = false;
+  void outcome(uint64_t h) {
+    std::lock_guard<std::mutex> g(mu);
+    if (distinct.size() >= distinct_cap) { if (!distinct.count(h)) distinct_capped = true; return; }
+    distinct.insert(h);
+  }
 
   // Write the shard result as JSON. Distinct hashes are written out so the orchestrator can
   // union them across shards (measured distinct count, not an estimate) up to a cap.
@@ -284,6 +292,7 @@ struct Reporter {
     fprintf(f, "{\n \"evaluations\": %llu,\n \"nontrivial\": %llu,\n \"exhaustive\": %s,\n",
             (unsigned long long)evaluations, (unsigned long long)nontrivial, exhaustive ? "true" : "false");
     fprintf(f, " \"note\": %s,\n", jstr(note).c_str());
+    fprintf(f, " \"distinct_capped\": %s,\n", distinct_capped ? "true" : "false");
     fprintf(f, " \"distinct_count\": %llu,\n \"distinct\": [", (unsigned long long)distinct.size());
     size_t n = 0;
     for (auto h : distinct) { if (n >= 200000) break; fprintf(f, "%s\"%016llx\"", n ? "," : "", (unsigned long long)h); n++; }
